@@ -51,6 +51,8 @@ Check(e) ==
             /\ Rep(e.id, "ReportedEqualsRemoved",
                    e.reported = SumSeq([k \in 1..Len(e.reads) |->
                                           Len(e.reads[k].seq) - Len(e.outs[k].seq)], 1))
+    [] e.f = "qsum" ->
+         Rep(e.id, "ReportedTotalIsSumOfMates", e.total = SumSeq(e.parts, 1))
     [] e.f = "polya" -> Rep(e.id, "PolyAIndex", e.out[1] = PolyAIndex(e.seq))
     [] e.f = "polyt" -> Rep(e.id, "PolyTIndex", e.out[1] = PolyTIndex(e.seq))
     [] e.f = "trimn" ->
